@@ -99,6 +99,16 @@ class Gen:
         if ts == 'bool':
             return r.random() < 0.5
         if ts == 'str':
+            lc = getattr(self, 'last_cache', None)
+            if lc is not None and lc.cache and r.random() < 0.7:
+                # strings related to the generated cache content, in several spellings
+                rec = r.choice(list(r.choice(list(lc.cache.values()))))
+                cands = [rec.name]
+                for a in ('alias', 'server', 'next_name'):
+                    if hasattr(rec, a):
+                        cands.append(getattr(rec, a))
+                s_ = r.choice(cands)
+                return r.choice([s_, s_.lower(), s_.upper(), s_.swapcase()])
             return r.choice(NAMES)
         if ts == 'bytes':
             return r.choice([b'', b'\x01\x02\x03\x04', b'abc'])
@@ -179,7 +189,8 @@ def run_contract(contract, finfo, spec_funcs, generators, n, seed, want_clause=N
                         kwargs[p] = cls.__new__(cls)
                     else:
                         kwargs[p] = gen.value(ts)
-            res = concrete.check_call(contract, func, kwargs, spec_funcs)
+            clock = kwargs.pop('__clock__', None) or rng.choice(TIMES[1:])
+            res = concrete.check_call(contract, func, kwargs, spec_funcs, clock=clock)
         except concrete.SpecError as e:
             errors.append('SpecError: %s' % e)
             break
